@@ -200,7 +200,7 @@ theorem prioSeed_known :
   | refine Or.inr (fun nx id => ?_)
     unfold Generated.C06Facts.prioSeed Conn.prioSeedFixed
     simp only [wrapU32]
-    split <;> split <;> simp_all <;> omega
+    split <;> simp_all
 
 theorem awaitTake_eq (a maxBytes maxFrameSize : Int)
     (ha : In32 a) (hb : 0 ≤ maxBytes) (hb' : maxBytes < 4611686018427387904)
